@@ -293,7 +293,8 @@ def check_reuse(pair):
         e1 = p.encode()
         if p.encode() != e1 or fields(p) != expect_fields(s1):
             return ('d|encode-changes-object|%s' % name,
-                    dict(spec=repr(s1), first=e1, second=p.encode()))
+                    dict(pair=repr(pair), spec=repr(s1), first=e1,
+                         second=p.encode()))
         names = attr_names(p, cls)
         plans = [('all', list(range(len(names))))] + [
             (names[i], [i]) for i in range(len(names))]
@@ -315,12 +316,14 @@ def check_reuse(pair):
                 continue          # a combination the class refuses to encode
             if len(p) != len(enc):
                 return ('d|len-after-assignment|%s|%s' % (name, label),
-                        dict(first=repr(s1), then=repr(tuple(spec)),
+                        dict(pair=repr(pair), first=repr(s1),
+                             then=repr(tuple(spec)),
                              len=len(p), encoded=enc))
             got = fields(pdu.decode(enc))
             if got != want:
                 return ('d|stale-encoding|%s|%s' % (name, label),
-                        dict(first=repr(s1), then=repr(tuple(spec)),
+                        dict(pair=repr(pair), first=repr(s1),
+                             then=repr(tuple(spec)),
                              encoded=enc, want=want, got=got))
     except Exception as e:
         return ('d|%s|%s' % (name, sig_exc(e)),
@@ -613,6 +616,17 @@ def replay(doc):
         v = check_constructive(spec)
     elif sig.startswith('c|'):
         v = check_aggregate(bytes.fromhex(d['sub']), FOLLOWERS)
+    elif sig.startswith('d|'):
+        import ast
+        pair = ast.literal_eval(d['pair']) if 'pair' in d else (
+            ast.literal_eval(d['first']), ast.literal_eval(d['then']))
+        v = check_reuse(pair)
+        if v is None and 'pair' not in d:
+            # the recorded single-field case: find it among the pairs
+            for pr in REUSE_PAIRS:
+                for q in (pr, (pr[1], pr[0])):
+                    if repr(q[0]) == d['first']:
+                        v = v or check_reuse(q)
     else:
         v, _ = check_bytes(bytes.fromhex(d['data']))
     print('replay:', v)
